@@ -1,4 +1,4 @@
-SPECIFICATION Spec
+SPECIFICATION FairSpec
 CONSTANTS
   Cap = 1
   Horizon = 2
@@ -10,7 +10,7 @@ CONSTANTS
   SweepAlphabet <- MC_RetrySweeps
   DecoAlphabet <- MC_RetryDeco
   BigChoices <- MC_SmallTol
-  LaggedRecordedAtSetup = TRUE
+  LaggedRecordedAtSetup = FALSE
   Hyp_NoCap = FALSE
 INVARIANT TypeOK
 INVARIANT C02_SolvedOnlyIfConverged
@@ -22,4 +22,5 @@ INVARIANT C11_EqualLengthsAfterFailure
 INVARIANT LengthsOfSolved
 PROPERTY C11_FailureRaises
 PROPERTY C11_PrefixIntact
+PROPERTY C11_Terminates
 CHECK_DEADLOCK FALSE
